@@ -28,7 +28,8 @@ ASSUMPTIONS = [
     "a selector for a property held only as an omitted default (e.g. revoked=false not written) may be accepted or refused; if accepted, the written JSON must contain the property",
     "a marking function 'accepts' a selector when it does not raise InvalidSelectorError (other documented refusals such as MarkingNotFoundError come after selector validation)",
 ]
-MARK = M.TLP["green"]
+# (not one of the four TLP ids: a generated TLP marking definition must not be marked with itself)
+MARK = "marking-definition--5f0c3b1e-7a52-4d1c-9b1e-3c8d6a7e2f90"
 
 
 def shape(segs):
